@@ -48,9 +48,10 @@ pub enum F {
     GetReceiveEntrypointSize,
     GetReceiveEntrypoint,
     Upgrade,
+    GetInitOrigin,
 }
 
-pub const ALL: [F; 33] = [
+pub const ALL: [F; 34] = [
     F::GetParameterSize,
     F::GetParameterSection,
     F::GetPolicySection,
@@ -84,6 +85,7 @@ pub const ALL: [F; 33] = [
     F::GetReceiveEntrypointSize,
     F::GetReceiveEntrypoint,
     F::Upgrade,
+    F::GetInitOrigin,
 ];
 
 /// (import name, parameter widths: false = i32 / true = i64, result: None / Some(is64))
@@ -122,6 +124,7 @@ pub fn sig(f: F) -> (&'static str, &'static [bool], Option<bool>) {
         F::GetReceiveEntrypointSize => ("get_receive_entrypoint_size", &[], Some(false)),
         F::GetReceiveEntrypoint => ("get_receive_entrypoint", &[false], None),
         F::Upgrade => ("upgrade", &[false], Some(true)),
+        F::GetInitOrigin => ("get_init_origin", &[false], None),
     }
 }
 
@@ -170,6 +173,9 @@ pub struct Ctx {
     pub sender:       Vec<u8>,
     pub owner:        [u8; 32],
     pub entrypoint:   Vec<u8>,
+    /// the contract's init function is run (no receive-only functions, empty initial state)
+    pub init:         bool,
+    pub init_origin:  [u8; 32],
 }
 
 #[derive(Clone, Debug)]
@@ -326,6 +332,12 @@ impl Model {
 
     /// Execute one call. `a` are the argument values in declaration order.
     pub fn call(&mut self, f: F, a: &[u64]) -> CallResult {
+        let receive_only = matches!(f, F::Invoke | F::Upgrade | F::GetReceiveInvoker | F::GetReceiveSelfAddress | F::GetReceiveSelfBalance | F::GetReceiveSender | F::GetReceiveOwner | F::GetReceiveEntrypointSize | F::GetReceiveEntrypoint);
+        if (self.ctx.init && receive_only) || (!self.ctx.init && f == F::GetInitOrigin) {
+            // a function of the other kind of entrypoint: runtime error
+            self.per_call.push(0);
+            return CallResult { step: Step::Trap, oob: false, cost: 0 };
+        }
         let a32 = |i: usize| a[i] as u32;
         let mut cost: u128 = 0;
         let mut oob = false;
@@ -857,6 +869,13 @@ impl Model {
                 cost += k::INVOKE_BASE_COST as u128;
                 if !oob {
                     interrupt = Some(Interrupt::Upgrade { module_ref: self.mem[r].to_vec() });
+                }
+            }
+            F::GetInitOrigin => {
+                let r = rng!(a32(0), 32);
+                if !oob {
+                    let o = self.ctx.init_origin;
+                    self.mem[r].copy_from_slice(&o);
                 }
             }
         }
